@@ -80,7 +80,7 @@ pub trait Scenario {
     const NAME: &'static str;
     /// what the evidence says about how cases are generated and what counts as non-trivial
     const RULE: &'static str;
-    fn generate(seed: u64, prop: &'static str, tier: Tier) -> Self::Case;
+    fn generate(seed: u64, run: u64, prop: &'static str, tier: Tier) -> Self::Case;
     /// Executes the case against the real library. Reports only violations tagged `prop`
     /// (the scenario may evaluate more oracles than that).
     fn execute(case: &Self::Case, prop: &'static str) -> Outcome;
@@ -303,7 +303,7 @@ impl CheckCtx {
             nviol: 0,
             log_xor: 0,
         });
-        const CHUNK: u64 = 64;
+        let chunk: u64 = (runs / (self.workers.max(1) as u64 * 8)).clamp(1, 64);
         std::thread::scope(|sc| {
             for _ in 0..self.workers.max(1) {
                 sc.spawn(|| {
@@ -318,13 +318,13 @@ impl CheckCtx {
                         log_xor: 0,
                     };
                     loop {
-                        let start = next.fetch_add(CHUNK, Ordering::Relaxed);
+                        let start = next.fetch_add(chunk, Ordering::Relaxed);
                         if start >= runs {
                             break;
                         }
-                        for run in start..(start + CHUNK).min(runs) {
+                        for run in start..(start + chunk).min(runs) {
                             let seed = run_seed(master, prop, S::NAME, run);
-                            let case = S::generate(seed, prop, tier);
+                            let case = S::generate(seed, run, prop, tier);
                             let out = S::execute(&case, prop);
                             acc.steps += out.stats.steps;
                             for (k, v) in &out.stats.faults {
@@ -408,7 +408,7 @@ impl CheckCtx {
         // samples: the first two runs of every scenario, written out
         for run in 0..runs.min(2) {
             let seed = run_seed(master, prop, S::NAME, run);
-            let case = S::generate(seed, prop, tier);
+            let case = S::generate(seed, run, prop, tier);
             let out = S::execute(&case, prop);
             self.samples.push(json!({
                 "scenario": S::NAME, "run": run, "seed": seed,
@@ -426,7 +426,7 @@ impl CheckCtx {
         }));
         // minimise and persist one representative per violation class
         for (_class, (run, seed, v)) in acc.viol.into_iter().take(6) {
-            let case = S::generate(seed, prop, tier);
+            let case = S::generate(seed, run, prop, tier);
             let (min_case, min_v, execs) = minimise::<S>(case, prop, &v);
             let file = write_replay::<S>(&self.verif_dir, prop, self.master_seed, run, seed, &min_case, &min_v);
             self.found.push(FoundViolation {
